@@ -11,6 +11,8 @@ import (
 
 func main() {
 	c := vlib.NewCheck("C05", "model_checking")
+	c.Set("rule", "part 1: TLC checks ExecConc (Termination, NoLeak, Ends under fairness) for N in {2,3} resolvers x worker_limit in {0,1,2} x deferred groups x {drain, one payload}; every edge of every state graph is covered by a path that is replayed into the generated server through resolver gates and cancellation (a class = one (configuration, edge-covering path)). part 2: sweeps on generated servers - each corpus / random operation cancelled after its k-th resolver event for every k, unscheduled and with gated fifo / lifo completion, executor-direct (all payloads / first payload only) and over the real POST, GET, SSE and multipart/mixed transports with a disconnecting client, plus the @defer operations with failing / null resolvers drained without cancellation (a class = (worker_limit, defer?, mode, faults?, k, schedule)). A hang = the response function or handler did not return within 5 s after the last resolver returned; a leak = goroutines with gqlgen or probe frames alive 1.5 s after the request ended; both are confirmed by a rerun with 10x the waits before they count")
+	c.Set("trusted_base", []string{"TLC", "the in-probe scheduler (gates at resolver entry)", "goroutine-dump filtering (frames of gqlgen and of the generated package)", "wall-clock bounds for 'did not return' (confirmed by reruns)"})
 	thorough := vlib.Tier() == "thorough"
 	vs := []vlib.Variant{
 		{Name: "w0"},
